@@ -7,6 +7,8 @@ import (
 	"fmt"
 	"runtime/debug"
 	"syscall"
+	"testing"
+	"time"
 
 	simdjson "github.com/minio/simdjson-go"
 )
@@ -174,10 +176,28 @@ func (bc *blobCase) try(blob []byte, kind string) bool {
 	in := append([]byte(nil), blob...)
 	var out *simdjson.ParsedJson
 	var derr error
-	err := safely(func() error {
-		out, derr = bc.ser.Deserialize(in, bc.dst)
-		return nil
-	})
+	var err error
+	// Deserialize waits for its own decompression goroutines: a call that never returns must not hang the
+	// worker. A real-clock allowance only *triggers* the deterministic check (the same blob inside a bubble,
+	// where a call blocked for good is a simulator-visible deadlock); it is never the verdict itself.
+	doneCh := make(chan struct{})
+	go func() {
+		defer close(doneCh)
+		err = safely(func() error {
+			out, derr = bc.ser.Deserialize(in, bc.dst)
+			return nil
+		})
+	}()
+	select {
+	case <-doneCh:
+	case <-time.After(20 * time.Second):
+		if deserializeDeadlocks(r, blob) {
+			r.violate("deserialize-hang", "deadlock", fmt.Sprintf("Deserialize never returns on a %s blob (%d bytes): every goroutine of the call is blocked for good", kind, len(blob)))
+			r.Res.Inputs["blob"] = base64.StdEncoding.EncodeToString(blob)
+			return false
+		}
+		<-doneCh // slow, not stuck
+	}
 	if err != nil {
 		var wp *WalkPanic
 		if errors.As(err, &wp) {
@@ -209,6 +229,27 @@ func splice(b []byte, off, n int, repl []byte) []byte {
 	out = append(out, b[:off]...)
 	out = append(out, repl...)
 	return append(out, b[off+n:]...)
+}
+
+// deserializeDeadlocks runs Deserialize(blob) inside a bubble and reports whether it blocks for good.
+func deserializeDeadlocks(r *Run, blob []byte) bool {
+	stuck := false
+	runBubble(r.T, func(t *testing.T) {
+		s := simdjson.NewSerializer()
+		done := false
+		go func() {
+			defer func() { recover(); done = true }()
+			s.Deserialize(append([]byte(nil), blob...), nil)
+		}()
+		syncWait()
+		if !done {
+			// nothing else can run: give timers a chance, then judge
+			time.Sleep(time.Second)
+			syncWait()
+		}
+		stuck = !done
+	})
+	return stuck
 }
 
 // RunFaultBlob is one run of C19: one base tape, serialized, and a batch of faults on the blob.
